@@ -8,6 +8,8 @@ B = {'data': [[2.0, 1.0, 0.0, -1.0], [0.5, 4.0, 2.0, 8.0], [1.0, 3.0, -3.0, 2.0]
 I = {'data': [[3, -1, 250, 7], [0, 0, 9, 100], [5, 5, 5, 2]], 'dtype': 'int32'}
 U = {'data': [[3, 1, 250, 7], [0, 0, 9, 100], [5, 5, 5, 2]], 'dtype': 'uint8'}
 V = {'data': [3.0, 1.0, float('nan'), 2.0, 2.0, -1.0], 'dtype': 'float64'}
+J8 = {'data': [[-100, 3], [100, 7]], 'dtype': 'int8'}
+J16 = {'data': [[-30000, 3], [30000, 7]], 'dtype': 'int16'}
 F32 = {'data': [[0.1, 0.2], [0.7, 16777217.0]], 'dtype': 'float32'}
 
 NUMPY_CASES = [
@@ -51,6 +53,10 @@ NUMPY_CASES_EXTRA = [
     ('np.diff(b, axis=0)', {'b': B}), ('np.diff(v)', {'v': V}), ('np.sort(b, axis=1)', {'b': B}), ('np.sort(b, axis=0)', {'b': B}), ('np.flatnonzero(i)', {'i': I}), ('np.dot(v2, v2)', {'v2': {'data': [1.0, 2.0, -3.0], 'dtype': 'float64'}}),
     ('np.dot(b, b.T)', {'b': B}), ('np.outer(v2, v2)', {'v2': {'data': [1.0, 2.0, -3.0], 'dtype': 'float64'}}), ('np.average(b, weights=np.ones((3, 4)))', {'b': B}), ('np.quantile(b, 0.25)', {'b': B}),
     ('np.nanpercentile(v, [25, 50])', {'v': V}), ('np.nanmedian(v)', {'v': V}), ('np.nanargmax(v)', {'v': V}), ('np.nanargmin(v)', {'v': V}), ('np.apply_along_axis(lambda r: r.sum(), 1, b)', {'b': B}),
+    # typed narrow-integer scalars from min / max reductions: arithmetic wraps in the NumPy result dtype
+    ('np.max(j) - np.min(j)', {'j': J8}), ('(np.max(j) - np.min(j)) / 2', {'j': J8}), ('np.max(j) + 100', {'j': J8}), ('np.min(j) * 2', {'j': J8}), ('j.max() - j.min()', {'j': J16}),
+    ('np.nanmax(j) - np.nanmin(j)', {'j': J8}), ('np.max(j) - np.min(k)', {'j': J8, 'k': J16}), ('np.max(j) - 1000', {'j': J8}), ('np.max(j) * 1.5', {'j': J8}), ('float(np.max(j)) - float(np.min(j))', {'j': J8}),
+    ('np.max(j).item() - np.min(j).item()', {'j': J8}),
     ('np.pad(b, 1, mode="edge")', {'b': B}), ('np.pad(b, ((0, 2), (1, 0)), mode="edge")', {'b': B}),
 ]
 
